@@ -96,8 +96,8 @@ C("mako.runtime:LoopStack._top",
 
 C("mako.runtime:LoopStack._push",
   params={"self": "LoopStack", "iterable": "Fun[iterable]"},
-  modifies=["self.stack", "heap('f:LoopContext.index')", "heap('f:LoopContext.parent')", "heap('f:LoopContext._iterable')"],
-  ensures=[("pushed-one", "len(self.stack) == len(old(self.stack)) + 1"),
+  modifies=["self.stack", "fresh_heap('f:LoopContext.index')", "fresh_heap('f:LoopContext.parent')", "fresh_heap('f:LoopContext._iterable')"],
+  ensures=[("pushed-one", "self.stack == old(self.stack) + [self.stack[len(old(self.stack))]]"),
            ("below-kept", "self.stack[:len(old(self.stack))] == old(self.stack)"),
            ("fresh-ctx", "fresh(self.stack[len(self.stack) - 1])"),
            ("index0", "self.stack[len(self.stack) - 1].index == 0"),
@@ -116,8 +116,8 @@ C("mako.runtime:LoopStack._pop",
 
 C("mako.runtime:LoopStack._enter",
   params={"self": "LoopStack", "iterable": "Fun[iterable]"}, returns="Any",
-  modifies=["self.stack", "heap('f:LoopContext.index')", "heap('f:LoopContext.parent')", "heap('f:LoopContext._iterable')"],
-  ensures=[("pushed-one", "len(self.stack) == len(old(self.stack)) + 1"),
+  modifies=["self.stack", "fresh_heap('f:LoopContext.index')", "fresh_heap('f:LoopContext.parent')", "fresh_heap('f:LoopContext._iterable')"],
+  ensures=[("pushed-one", "self.stack == old(self.stack) + [self.stack[len(old(self.stack))]]"),
            ("below-kept", "self.stack[:len(old(self.stack))] == old(self.stack)"),
            ("returns-new-top", "same(result, self.stack[len(self.stack) - 1])"),
            ("fresh-ctx", "fresh(self.stack[len(self.stack) - 1])"),
